@@ -98,8 +98,8 @@ var checks = map[string]check{
 	"C01": {
 		ID: "C01", Pkg: "c01", NeedBin: true, MaxPar: 12,
 		Jobs: []job{
-			{Run: "^TestCompiles$", Quick: 40, QShards: 8, Thor: 2500, TShards: 14},
-			{Run: "^TestCompilesNames$", Quick: 40, QShards: 4, Thor: 1500, TShards: 14},
+			{Run: "^TestCompiles$", Quick: 80, QShards: 8, Thor: 2500, TShards: 14},
+			{Run: "^TestCompilesNames$", Quick: 60, QShards: 4, Thor: 1500, TShards: 14},
 		},
 		Rule:   "IDL models (1-3 files, every definition kind, typedef chains, cross-include references, negative/implicit/hex ids, defaults and constants in every spelling, annotations, files without a go namespace) x go/fastgo x drawn option configurations (none, one option, 2-8 options in bare/=true/=false form, naming styles, slim/raw_struct templates, package_prefix) x -r on/off; thriftgo exit 0 => every written .go file parses and all generated packages type-check together (go/types, runtime libraries from source); non-trivial = compiled program with a cross-file reference or a non-default option, distinct by IDL text and command line",
 		Assume: []string{"options that need resources absent offline are not drawn: code_ref*, exp_code_ref, keep_code_ref_name (idl-ref.yaml + foreign package), thrift_streaming/streamx (kitex is not cached), use_option (option IDL), skip_go_gen (writes nothing), apache_adaptor", "go namespaces are layered so that includes cannot form Go import cycles; files without a go namespace have unique base names; a throws entry never has id 0 (the id of `success`)", "names are unique program-wide (collision-renaming stress is not generated yet)", "a valid program that thriftgo rejects is counted (status:rejected_valid), not reported: C04 decides diagnostics"},
@@ -107,7 +107,7 @@ var checks = map[string]check{
 	"C18": {
 		ID: "C18", Pkg: "c18", NeedBin: true, MaxPar: 8,
 		Jobs: []job{
-			{Run: "^TestDeepEqual$", Quick: 4, QShards: 8, Thor: 30, TShards: 14},
+			{Run: "^TestDeepEqual$", Quick: 8, QShards: 8, Thor: 30, TShards: 14},
 		},
 		Rule:   "one rapid case = one generated program under go:gen_deep_equal (+0-2 presentation-only options) built into a driver, then 30-100 pairs (copy, exactly one leaf changed at a drawn depth, independent values, same object, nil receivers/arguments/fields) judged against a reference structural equality, plus Write on sets with/without an injected duplicate (validate_set); non-trivial = the pair differs in exactly one leaf at depth >=2, or only in one map key; distinct by program, configuration, struct and both values",
 		Assume: []string{"the expectation is computed under a strict and a liberal reading of the statement and asserted only where both agree (otherwise only no-panic and symmetry): optional binary unset vs empty, optional-with-default absent vs present-equal-to-default, nil pointer vs object", "NaN and -0 are not generated; sets are compared in order"},
@@ -126,7 +126,7 @@ var checks = map[string]check{
 	"C07": {
 		ID: "C07", Pkg: "c07", NeedBin: true, MaxPar: 8,
 		Jobs: []job{
-			{Run: "^TestDeterministic$", Quick: 25, QShards: 6, Thor: 200, TShards: 14},
+			{Run: "^TestDeterministic$", Quick: 50, QShards: 6, Thor: 200, TShards: 14},
 		},
 		Rule:   "GoSafe models (3-4 files) boosted with 2-5 annotation keys per node, 2-9-entry map constants and services throwing 2-5 exception types x 9 configuration classes (default, with_reflection, gen_type_meta, with_field_mask, fastgo, reserve_comments, template=slim, random go/fastgo option sets) x optional recording/patching plugin; k=4 (quick) / 12 (thorough) fresh processes under GOMAXPROCS 1/2/4/16 with -o directories of different name lengths, some dirty; the multiset (relative path, sha256) and the bytes a plugin receives must be identical; non-trivial = (node with >=2 annotation keys or map constant with >=2 entries) and >=2 generated files, distinct by files + args + plugin",
 		Assume: []string{"stdout/stderr are not compared", "plugin cases keep one -o string (the request embeds it)", "a two-entry Go map shows its minority order in roughly one process in eight, so a single nondeterministic map is caught by k=4 with probability about 0.4 per program; witnesses replay with k>=80"},
@@ -134,7 +134,7 @@ var checks = map[string]check{
 	"C06": {
 		ID: "C06", Pkg: "c06", NeedBin: true, MaxPar: 8,
 		Jobs: []job{
-			{Run: "^TestValues$", Quick: 3, QShards: 8, Thor: 50, TShards: 14},
+			{Run: "^TestValues$", Quick: 8, QShards: 8, Thor: 50, TShards: 14},
 		},
 		Rule:   "one rapid case = one generated program (constants and field defaults of every type shape in every spelling: literal, identifier, qualified identifier across includes, enum by name/number, int for double, 0/1/true/false, nested list/set/map literals, partial struct literals) under drawn representation options (enum_as_int_32, value_type_in_container, use_type_alias=false, naming styles, ignore_initialisms, nil_safe), built into a driver; every constant is compared with the model's evaluation of its initializer, every struct-like's NewX()/InitDefault()/getters/IsSet with its declared defaults; non-trivial = constant that is a container/struct literal or an identifier reference, or a default of an optional field; distinct by program and name",
 		Assume: []string{"untyped Go constants are compared numerically; nil and empty containers/binaries are one value; maps as entry sets", "IsSet is asserted only where the property states it (optional scalar holding its default: false; value different from default and zero: true)", "constants are matched by a style-independent key (names are unique program-wide); ambiguous matches are counted and skipped"},
@@ -142,7 +142,7 @@ var checks = map[string]check{
 	"C10": {
 		ID: "C10", Pkg: "c10", NeedBin: true, MaxPar: 8,
 		Jobs: []job{
-			{Run: "^TestFast$", Quick: 4, QShards: 8, Thor: 30, TShards: 14},
+			{Run: "^TestFast$", Quick: 8, QShards: 8, Thor: 30, TShards: 14},
 		},
 		Rule:   "one rapid case = one generated program under -g fastgo (+0-2 presentation options) built into a driver, then 10-20 (struct, value) pairs, each through the modes write (FastAppend/FastWrite/BLength vs reference decoder and standard Read), read (FastRead vs standard Read on standard and reference encodings, both field orders), unknown / retag / omit_required perturbations, and a sweep over every truncation point (<=512) and single-byte corruptions of type bytes (field, stop, element, map key/value); non-trivial = sweep case, or a value with >=1 optional-with-default field and >=1 container inside a container",
 		Assume: []string{"FastWrite/FastAppend bytes are compared with the reference by decoded value (byte identity only without multi-entry maps)", "the violation is fast != standard (status, offset, object) or a panic; cases where the standard codec itself fails are counted and left to C02", "inputs announcing more than 2^20 elements are skipped on the read path so the watchdog cannot make runs flaky"},
@@ -169,7 +169,7 @@ var checks = map[string]check{
 	"C13": {
 		ID: "C13", Pkg: "c13", NeedBin: true, MaxPar: 8,
 		Jobs: []job{
-			{Run: "^TestMask$", Quick: 3, QShards: 8, Thor: 25, TShards: 14},
+			{Run: "^TestMask$", Quick: 6, QShards: 8, Thor: 25, TShards: 14},
 			{Run: "^TestAnchor$", Quick: 1, QShards: 1, Thor: 1, TShards: 1},
 		},
 		Rule: "one rapid case = one program generated with go:with_field_mask,with_reflection plus one of {nothing, field_mask_halfway, field_mask_zero_required}, built into a driver, then 40-100 (root struct, value, path set, white/black) pairs; paths are drawn along the value (fields by name/id, indices in and out of range, present/absent int and string keys, *, depth <= 4, multi-key steps, conflict-free or (1/8) conflicting), plus nil-mask, empty-mask and mask-attached-to-child (halfway) modes; non-trivial = strict non-empty subset of a container of size >= 3 including its last element, or mask depth >= 3",
@@ -182,7 +182,7 @@ var checks = map[string]check{
 	"C08": {
 		ID: "C08", Pkg: "c08", NeedBin: true, MaxPar: 8,
 		Jobs: []job{
-			{Run: "^TestCalls$", Quick: 3, QShards: 8, Thor: 40, TShards: 14},
+			{Run: "^TestCalls$", Quick: 8, QShards: 8, Thor: 40, TShards: 14},
 		},
 		Rule:   "IDL models with services (void/value/oneway, 0-6 args, 0-3 throws incl. typedef'd exceptions, extends local / across files / same Go package, names that are Go keywords or generated identifiers) x 20-50 call sequences of 1-8 calls on one connection through generated client -> loop-back transport -> generated processor with a recording handler synthesised from the generated interface; handler args, caller result/exception/application exception, raw request and reply messages judged by the reference codec; non-trivial = service has a base or >=1 throws and the sequence mixes >=2 outcome kinds, distinct by program+service+calls",
 		Assume: []string{"the IDL method <-> Go method correspondence is learnt by behaviour (the name the generated client puts on the wire)", "a oneway request may be typed CALL or ONEWAY (apache's TStandardClient sends CALL); only the absence of a reply is asserted", "constants are switched off so that programs C01/C06 findings would reject do not occur"},
@@ -191,7 +191,7 @@ var checks = map[string]check{
 		ID: "C09", Pkg: "c09", NeedBin: true, MaxPar: 8,
 		Jobs: []job{
 			{Run: "^TestRuntime$", Quick: 3000, QShards: 8, Thor: 30000, TShards: 14},
-			{Run: "^TestEvolve$", Quick: 2, QShards: 8, Thor: 15, TShards: 14},
+			{Run: "^TestEvolve$", Quick: 5, QShards: 8, Thor: 15, TShards: 14},
 		},
 		Rule:   "layer A (in-process): one unknown field of any Thrift type from a recursive generator (all wire types, nesting up to and beyond the documented depth limit) through unknown.Fields Append/Write must come back byte-exactly, beyond the limit the documented error; layer B: pairs (old, new) where old is derived from a generated new by removing optional/default fields at any depth, enum members and union members, generated as go (new) and go / go:keep_unknown_fields (old), built into three drivers; values of new travel along chains old->new->old up to length 3; non-trivial = the removed set contains a container- or struct-typed field below the top level (B), or a nested unknown field of depth >= 3 (A)",
 		Assume: []string{"old may lack only non-required fields, enum members and union members that no constant or default mentions", "the carrying-unknown-fields flag is asserted for the top-level object only", "depth 65 may go either way (the documentation does not say whether the outermost value counts)"},
